@@ -599,6 +599,7 @@ impl OrdSpecImpl for Version { open spec fn obeys_cmp_spec() -> bool { true } op
     meta = {
         'file': path,
         'functions': g.functions,
+        'inventory': inventory(repo, g.functions),
         'clauses': clauses,
         'lost_hints': g.lost_hints,
         'lost_items': g.lost_items,
@@ -614,6 +615,45 @@ impl OrdSpecImpl for Version { open spec fn obeys_cmp_spec() -> bool { true } op
     }
     json.dump(meta, open(os.path.join(outdir, 'meta.json'), 'w'), indent=1)
     return meta
+
+
+def inventory(repo, functions):
+    """every non-test `fn` of src/lib.rs and src/range.rs, and how the framework covers it (mechanical, from line ranges)"""
+    from xtract import match_brace
+    cov = {}
+    for f in functions:
+        cov.setdefault(f['file'], []).append((f['lines'][0], f['lines'][1], f['id'], f.get('kind', 'fn')))
+    out = []
+    for rel in ('src/lib.rs', 'src/range.rs'):
+        path = os.path.join(repo, rel)
+        if not os.path.exists(path):
+            continue
+        text = open(path).read()
+        cut = re.search(r'^#\[cfg\(test\)\]', text, re.M)
+        body = text[:cut.start()] if cut else text
+        for m in re.finditer(r'^[ \t]*(?:pub(?:\([^)]*\))?\s+)?(?:const\s+)?fn\s+(\w+)', body, re.M):
+            l0 = body.count('\n', 0, m.start()) + 1
+            ob = body.find('{', m.end())
+            semi = body.find(';', m.end())
+            if ob < 0 or (0 <= semi < ob):
+                continue
+            try:
+                l1 = body.count('\n', 0, match_brace(body, ob)) + 1
+            except Exception:
+                l1 = l0
+            whole = [c for c in cov.get(rel, []) if c[0] <= l0 and l1 <= c[1]]
+            inner = [c for c in cov.get(rel, []) if l0 <= c[0] and c[1] <= l1 and not (c[0] <= l0 and l1 <= c[1])]
+            if whole:
+                st, by = 'under contract', [c[2] for c in whole]
+            elif inner:
+                st, by = 'closure(s) inside it under contract; the combinator shell around them is not', [c[2] for c in inner]
+            else:
+                st, by = 'not under contract', []
+            mac = [mm for mm in re.finditer(r'^macro_rules!\s+impl_from_(?:un)?signed_for_version', body, re.M) if mm.start() < m.start() <= match_brace(body, body.find('{', mm.end()))]
+            if mac and not whole:
+                st, by = 'macro body: every integer instance is proved by the Kani harnesses of C18 (the u64 instance also by Verus)', ['tools/kani_c18.py']
+            out.append({'file': rel, 'line': l0, 'end': l1, 'fn': m.group(1), 'status': st, 'by': sorted(set(by))})
+    return out
 
 
 def scan_trusted(text):
